@@ -253,19 +253,22 @@ Section GenericCap.
   Hypothesis Hpol : policy_ok ncap.
   Variable P : state -> block -> Prop.
   Hypothesis P_grown : forall s s' bl c size, P s bl -> same_elems s s' -> P s' (grown bl c size).
-  Hypothesis P_fresh : forall s' size a c, P s' (fresh_block size a 0 c a).
+  (* F: what is known while the vector has never allocated (e.g. "the abstract list is empty");
+     a first block only has to satisfy P under F *)
+  Variable F : Prop.
+  Hypothesis P_fresh : F -> forall s' size a c, P s' (fresh_block size a 0 c a).
 
   Definition vec_okP (s : state) (v : nat) : Prop :=
-    vec_sentinel s v \/ exists b bl, vec_at s v b bl /\ block_ok cfg bl /\ P s bl.
+    (vec_sentinel s v /\ F) \/ exists b bl, vec_at s v b bl /\ block_ok cfg bl /\ P s bl.
 
   Lemma grow_sentinel_okP s v c :
-    vec_sentinel s v -> 0 <= c < W64 ->
+    vec_sentinel s v -> F -> 0 <= c < W64 ->
     post (grow cfg v c (max_align cfg) s) (fun _ s' => vec_okP s' v) (fun s' => s' = s).
   Proof.
-    intros Hv Hc.
+    intros Hv HF Hc.
     eapply post_weaken; [apply (grow_sentinel cfg ncap Hcfg s v c (max_align cfg) Hv Hc (max_align_pow2 cfg Hcfg)); lia | |].
-    - intros u s' [(_ & _ & ->)|(size & _ & Hb & Ha)]; [left; assumption|].
-      right. eexists. eexists. split; [eapply allocated_vec_at; exact Ha|]. split; [exact Hb|apply P_fresh].
+    - intros u s' [(_ & _ & ->)|(size & _ & Hb & Ha)]; [left; split; assumption|].
+      right. eexists. eexists. split; [eapply allocated_vec_at; exact Ha|]. split; [exact Hb|apply P_fresh; exact HF].
     - intros s' [-> _]. reflexivity.
   Qed.
 
@@ -280,13 +283,13 @@ Section GenericCap.
   Proof.
     intros Hinv Ha. destruct o as [n|n| |m]; simpl in *.
     - (* reserve *)
-      destruct Hinv as [Hs|(b & bl & Hv & Hb & HP)].
+      destruct Hinv as [[Hs HF]|(b & bl & Hv & Hb & HP)].
       + destruct (sentinel_basics cfg s v Hs) as (Hl & Hc & Hal). unfold reserve.
         rewrite (bind_val _ _ _ _ _ Hc), (bind_val _ _ _ _ _ Hl).
         unfold add_m, add_u. cbv zeta. rewrite Z.add_0_l.
         destruct (Z.ltb_spec n W64); [|simpl; reflexivity].
         rewrite lift_opt_some, bind_ret.
-        destruct (Z.leb_spec n 0). { simpl. left. assumption. }
+        destruct (Z.leb_spec n 0). { simpl. left. split; assumption. }
         destruct (ncap 0) as [c1|] eqn:E1; [|simpl; reflexivity].
         rewrite lift_opt_some, bind_ret.
         destruct (Hpol 0 c1 ltac:(lia) E1) as (H1 & H2 & H3).
@@ -295,33 +298,33 @@ Section GenericCap.
         eapply post_bind; [apply (reserve_loop_spec ncap 130 c1 n s Hpol H1 Hpow)|].
         intros nc s' (-> & Hx & Hy & Hz & Hw).
         rewrite (bind_val _ _ _ _ _ Hal).
-        apply grow_sentinel_okP; [assumption|]. destruct Hw; lia.
+        apply grow_sentinel_okP; [assumption|assumption|]. destruct Hw; lia.
       + eapply post_weaken; [apply (reserve_at cfg ncap Hcfg s v b bl n Hpol Hv Hb Ha)| |auto].
         intros u s' [[_ ->]|[_ (c & size & _ & _ & _ & Hb' & Hm)]]; [right; eauto|eapply movedP; eassumption].
     - (* reserve_exact *)
-      destruct Hinv as [Hs|(b & bl & Hv & Hb & HP)].
+      destruct Hinv as [[Hs HF]|(b & bl & Hv & Hb & HP)].
       + destruct (sentinel_basics cfg s v Hs) as (Hl & Hc & Hal). unfold reserve_exact.
         rewrite (bind_val _ _ _ _ _ Hc), (bind_val _ _ _ _ _ Hl).
         unfold add_m, add_u. cbv zeta. rewrite Z.add_0_l.
         destruct (Z.ltb_spec n W64); [|simpl; reflexivity].
         rewrite lift_opt_some, bind_ret.
-        destruct (Z.leb_spec n 0). { simpl. left. assumption. }
+        destruct (Z.leb_spec n 0). { simpl. left. split; assumption. }
         rewrite (bind_val _ _ _ _ _ Hal).
-        apply grow_sentinel_okP; [assumption|lia].
+        apply grow_sentinel_okP; [assumption|assumption|lia].
       + eapply post_weaken; [apply (reserve_exact_at cfg ncap Hcfg s v b bl n Hv Hb Ha)| |auto].
         intros u s' [[_ ->]|[_ (size & _ & Hb' & Hm)]]; [right; eauto|eapply movedP; eassumption].
     - (* shrink_to_fit *)
-      destruct Hinv as [Hs|(b & bl & Hv & Hb & HP)].
+      destruct Hinv as [[Hs HF]|(b & bl & Hv & Hb & HP)].
       + destruct (sentinel_basics cfg s v Hs) as (Hl & Hc & Hal). unfold shrink_to_fit.
-        rewrite (bind_val _ _ _ _ _ Hl), (bind_val _ _ _ _ _ Hc). simpl. left. assumption.
+        rewrite (bind_val _ _ _ _ _ Hl), (bind_val _ _ _ _ _ Hc). simpl. left. split; assumption.
       + eapply post_weaken; [apply (shrink_to_fit_at cfg ncap Hcfg s v b bl Hv Hb)| |auto].
         intros u s' [[_ ->]|[_ (size & _ & Hb' & Hm)]]; [right; eauto|eapply movedP; eassumption].
     - (* shrink_to *)
-      destruct Hinv as [Hs|(b & bl & Hv & Hb & HP)].
+      destruct Hinv as [[Hs HF]|(b & bl & Hv & Hb & HP)].
       + destruct (sentinel_basics cfg s v Hs) as (Hl & Hc & Hal). unfold shrink_to.
         rewrite (bind_val _ _ _ _ _ Hl), (bind_val _ _ _ _ _ Hc).
         destruct (Z.ltb_spec m 0); [lia|].
-        destruct (Z.eqb_spec 0 m). { simpl. left. assumption. }
+        destruct (Z.eqb_spec 0 m). { simpl. left. split; assumption. }
         destruct (Z.ltb_spec 0 m); [simpl; reflexivity|lia].
       + eapply post_weaken; [apply (shrink_to_at cfg ncap Hcfg s v b bl m Hv Hb Ha)| |auto].
         intros u s' (_ & [[-> _]|(c & size & _ & _ & _ & Hb' & Hmv)]); [right; eauto|eapply movedP; eassumption].
